@@ -398,15 +398,31 @@ fn cpio_sweep(tools: Arc<Tools>) -> Sweep {
         a
     }));
     let long_variants = [false, true];
-    let n = archives.len() as u64 * 2;
-    let rule = format!("{} hostile cpio archives inside an otherwise valid uncompressed hand-encoded package (every truncation; each of the 13 header fields of the first entry and size/namesize of the second ∈ boundary / non-hex values, i.e. name length 0/1/4096/4097/2^32−1 and file sizes up to 2^32−1; stripped entries with index 0..n+1, 2^31−1, 2^32−2, 2^32−1 with and without alignment bytes; missing trailer; bad magic; unterminated / non-UTF-8 name) × header with 32-bit / 64-bit size tags", archives.len());
+    // sizes the *header* declares for the first file (stripped entries take their length from the header)
+    let size_overrides: [Option<u64>; 9] = [None, Some(0), Some(u32::MAX as u64), Some(1 << 32), Some((1 << 32) + 1), Some(1 << 63), Some(u64::MAX - 3), Some(u64::MAX - 1), Some(u64::MAX)];
+    let n = archives.len() as u64 * 2 * size_overrides.len() as u64;
+    let rule = format!("{} hostile cpio archives inside an otherwise valid uncompressed hand-encoded package (every truncation; each of the 13 header fields of the first entry and size/namesize of the second ∈ boundary / non-hex values, i.e. name length 0/1/4096/4097/2^32−1 and file sizes up to 2^32−1; stripped entries with index 0..n+1, 2^31−1, 2^32−2, 2^32−1 with and without alignment bytes; missing trailer; bad magic; unterminated / non-UTF-8 name) × header with 32-bit / 64-bit size tags × size declared by the header for the first file ∈ {{as archived, 0, 2^32−1, 2^32, 2^32+1, 2^63, 2^64−4, 2^64−2, 2^64−1}} (for the valid and the stripped archives)", archives.len());
     Sweep::new("hostile-cpio", rule, n, move |i, acc| {
-        let (what, arch) = &archives[(i / 2) as usize];
-        let long = long_variants[(i % 2) as usize];
-        let x = foreign::package("hand", &files, arch.clone(), None, long).join().0;
-        exercise(&tools, "hostile-cpio", &x, i, &|| bytes_case(&x, json!({"archive": what, "long_sizes": long})), acc);
+        let so = size_overrides[(i % 9) as usize];
+        let i2 = i / 9;
+        let (what, arch) = &archives[(i2 / 2) as usize];
+        let long = long_variants[(i2 % 2) as usize];
+        // size overrides only together with the few archives that can reach them (valid, stripped, truncated at the end)
+        if so.is_some() && !(what == "valid" || what.starts_with("stripped") || what == "no trailer") {
+            return;
+        }
+        let mut parts = foreign::package("hand", &files, arch.clone(), None, long);
+        if let Some(v) = so {
+            let tag = if long { 5008 } else { 1028 };
+            let n = files.len();
+            let val = if long { Val::Int64((0..n).map(|k| if k == 0 { v } else { files[k].archive_data().len() as u64 }).collect()) } else { Val::Int32((0..n).map(|k| if k == 0 { v as u32 } else { files[k].archive_data().len() as u32 }).collect()) };
+            set(&mut parts.main, tag, Some(val));
+            parts = split(&with_digests(&parts, &DigestPlan { md5: D::Correct, sha1: D::Correct, sha256: D::Correct, payload: D::Correct, algo: 8 }).0).expect("splits");
+        }
+        let x = parts.join().0;
+        exercise(&tools, "hostile-cpio", &x, i, &|| bytes_case(&x, json!({"archive": what, "long_sizes": long, "declared_size_of_first_file": so})), acc);
         if i % 97 == 0 {
-            acc.sample(i, || json!({"archive": what, "long_sizes": long}));
+            acc.sample(i, || json!({"archive": what, "long_sizes": long, "declared_size_of_first_file": so}));
         }
     })
 }
